@@ -5,6 +5,8 @@ use serde_json::{json, Value};
 use std::io::Read;
 
 mod cmd_vector;
+mod cmd_table;
+mod cmd_oracle;
 
 pub fn f(b: u64) -> f64 {
     f64::from_bits(b)
@@ -47,6 +49,8 @@ fn main() {
     let input: Value = serde_json::from_str(&s).expect("json input");
     let out = match cmd.as_str() {
         "vector" => cmd_vector::run(&input),
+        "table" => cmd_table::run(&input),
+        "oracle" => cmd_oracle::run(&input),
         _ => panic!("unknown command"),
     };
     println!("{}", serde_json::to_string(&out).unwrap());
